@@ -98,7 +98,11 @@ Definition yaml_set_tag (n : node) (t : option string) : outcome node :=
 Fixpoint set_val (k : pyval) (v : node) (kvs : list (node * node)) : list (node * node) :=
   match kvs with
   | [] => []
-  | (kn, old) :: r => if py_eq (key_val kn) k then (kn, v) :: r else (kn, old) :: set_val k v r
+  | (kn, old) :: r =>
+      match kn with
+      | NLeaf _ kv => if py_eq kv k then (kn, v) :: r else (kn, old) :: set_val k v r
+      | _ => (kn, old) :: set_val k v r       (* keys are scalars; as Doc.assoc_key *)
+      end
   end.
 
 (* ruamel ordereddict.insert(pos, key, value) for a key that is absent *)
